@@ -195,6 +195,7 @@ structure JState where
   top : String := ""
   bad : List String := []
   pendingUnit : List (List String) := []       -- unit commands whose output has not been seen yet
+  foreign : List String := []                  -- binaries of another driver build / configuration / program name
   damaged : List String := []                  -- programs whose saved binary was damaged since it was written
   expects : List (String × String) := []       -- call ↦ the value the source text prescribes (string switch cases)
   deriving Inhabited
@@ -381,15 +382,21 @@ def traceLine (s : JState) (unitSeen : Nat) (line : String) : JState × Nat :=
   | ["begin", _] => ({ s with inBlock := true, used := [], cur := [], curR := [] }, unitSeen)
   | ["end", _] => (endBlock s, unitSeen)
   | ["corrupted", name] => ({ s with damaged := name :: s.damaged }, unitSeen)
+  | ["foreign", name, _] => ({ s with foreign := name :: s.foreign }, unitSeen)
+  | ["copybin", _, dst] => ({ s with foreign := dst :: s.foreign }, unitSeen)
   | ["lb", name, "use"] =>
     let s := (staleReasons s name).foldl JState.flag s
     let s := if s.damaged.contains name then s.flag s!"damaged-binary-used {name}" else s
+    let s := if s.foreign.contains name then s.flag s!"foreign-binary-used {name}" else s
     ({ s with used := name :: s.used }, unitSeen)
   | ["lb", _, "stale"] => (s, unitSeen)
   | ["lb", _, "needs", _] => (s, unitSeen)
   | "sv" :: name :: t :: _ =>
     match t.toNat? with
-    | some t => ({ s with binT := setKey s.binT name t, damaged := s.damaged.filter (· != name) }, unitSeen)
+    | some t =>
+      let dm := s.damaged.filter (fun x => x != name)
+      let fg := s.foreign.filter (fun x => x != name)
+      ({ s with binT := setKey s.binT name t, damaged := dm, foreign := fg }, unitSeen)
     | none => (s.flag s!"save-failed {name}", unitSeen)
   | "restarted" :: _ => ({ s with simulTouchedSinceRestart := false }, unitSeen)
   | "D" :: tag :: rest =>
